@@ -114,6 +114,7 @@ def run_case(ctx, drv, case, variant, record=None):
                             must_ok=show_bytes(c.must_ok) if c.must_ok is not None else None))
         spin = h.spin
         wire_probs = h.wire_problems()
+        unsent = list(h.unsent_blocked)
         extra_writes = h.extra_writes
         crash = None
         if h.run_task.done() and not h.run_task.cancelled() and h.run_task.exception() is not None:
@@ -163,6 +164,12 @@ def run_case(ctx, drv, case, variant, record=None):
         ctx.oracle_fail("c14:listener-crash", case, "the listener leaves through its cleanup and signals its exit",
                         dict(crash=crash, observed=observed),
                         "_run died inside finally: remaining futures are never failed, _run_exit_event never set")
+    if unsent:
+        ctx.oracle_fail("c14:hang:request-never-written", case,
+                        "a call blocked in result() has had its request handed to the writer",
+                        dict(callers=unsent, listener=lst, wire=final.get("wire"), observed=observed),
+                        "the connection is healthy and the io loop has nothing left to run, yet the request of a "
+                        "waiting caller was never written: no peer can ever answer it, the caller waits forever")
     if wire_probs:
         ctx.oracle_fail("c14:wire-garbled", case,
                         "the bytes the server sees parse as exactly the request frames that were sent",
@@ -488,6 +495,56 @@ def gen_backpressure(rng, count):
         yield dict(kind="backpressure", callers=kinds, stream=stream, sched=sched)
 
 
+def gen_slow(rng, thorough):
+    """responses whose fragments arrive far apart in (virtual) time: the machine has no clock, so
+    every call must still get its own answer, at every split position"""
+    for n in (1, 2, 3):
+        perms = list(itertools.permutations(range(n)))
+        for perm in (perms if thorough else rng.sample(perms, min(len(perms), 2))):
+            stream = [[k, k] for k in perm]
+            offs, total = stream_layout(stream)
+            pts = [p for p in cut_classes(stream) if 0 < p < total]
+            if not thorough:
+                s, e = offs[rng.randrange(n)]
+                pts = sorted({s + 5, s + 16, s + 17, s + 19, s + 20, s + 21, e - 1} & set(pts) |
+                             set(rng.sample(pts, min(len(pts), 2))))
+            for p in pts:
+                for gap in ((2, 10, 120) if thorough else (rng.choice([2, 10, 120]),)):
+                    sched = interleave(rng, [[["K", k]] * 3 for k in range(n)]) + [["IOS"]]
+                    if rng.random() < 0.3:
+                        sched += [["ADV", gap], ["IOS"]]          # idle time at a frame boundary
+                    sched += [["F", 0, p], ["IOS"], ["ADV", gap], ["IOS"]]
+                    q = rng.choice([x for x in cut_classes(stream) if x > p] or [total])
+                    if q < total and rng.random() < 0.4:
+                        sched += [["F", p, q], ["IOS"], ["ADV", gap], ["IOS"]]
+                    sched += [["F", p, total], ["IOS"]]
+                    yield dict(kind="slow-fragments", cut=cut_class_name(stream, p), callers=["call"] * n,
+                               stream=stream, sched=sched)
+
+
+def gen_peer(rng, thorough):
+    """honest peers that answer in another order than the requests arrived: a frame is sent only
+    after the request it answers has been seen on the wire (answer order 3,2,1 and all others)"""
+    for n in (2, 3, 4):
+        perms = list(itertools.permutations(range(n)))
+        rev = tuple(reversed(range(n)))
+        chosen = perms if (thorough or n < 4) else [rev] + rng.sample(perms, 5)
+        for perm in chosen:
+            for _ in range(2 if thorough else 1):
+                kinds = ["call"] * n
+                if rng.random() < 0.3:
+                    kinds[rng.randrange(n)] = "bigcall"
+                stream = [[k, k] for k in perm]
+                if rng.random() < 0.5:
+                    sched = interleave(rng, [[["K", k]] * 3 for k in range(n)])
+                else:
+                    sched = []
+                    for k in range(n):
+                        sched += [["K", k]] * 3 + ([["IO"]] if rng.random() < 0.5 else [])
+                sched += [["PEER"]]
+                yield dict(kind="peer-order", callers=kinds, stream=stream, sched=sched)
+
+
 def gen_after_gone(rng, count):
     """calls made after the connection has gone"""
     for _ in range(count):
@@ -658,6 +715,8 @@ def run(ctx):
             kernel_trace_obligation(ctx, variant, rec[0])
         gens = [
             gen_orders(ctx.rng, not quick),
+            gen_peer(ctx.rng, not quick),
+            gen_slow(ctx.rng, not quick),
             gen_backpressure(ctx.rng, 60 if quick else 600),
             gen_large(ctx.rng, not quick),
             gen_loss(ctx.rng, not quick, 80),
